@@ -539,6 +539,8 @@ def math_reqs(tier, seed, unit, nunits, ops, tag):
                 x = rng.choice(xs) if rng.random() < 0.4 else G.clip(s, n, int(rng.uniform(-3, 3) * one))
                 nn = rng.choice(edge_n) if rng.random() < 0.6 else rng.randint(-200, 200)
                 out.append(treq(op, S, x, D, nn))
+                if nn < 0:
+                    out.append(treq(op, S, x, D, -nn))     # twin request: the oracle judges "powi(x, n) = truncated reciprocal of powi(x, |n|)" on the pair
             for x in (0, 2 * one, G.clip(s, n, -2 * one), 3 * one, hi, lo, 10 * one):
                 for nn in big_n:
                     out.append(treq(op, S, x, D, nn))
